@@ -93,7 +93,7 @@ def eval_isurl(case):
                 std = _us(full).hostname or ""
             except ValueError:
                 std = None
-            if std is None or std.lower() != host.lower().strip("[]"):
+            if std is None or not std or std.lower() != host.lower().strip("[]"):
                 continue   # bracket / '@' soup on which the reference splitter and urlsplit see different hosts: no host to state the rule on
             h = host.lower().rstrip(".")
             last = h.rsplit(".", 1)[-1]
